@@ -131,12 +131,14 @@ def run_unit(unit, strict=True, rlimit=None, tag="", text_override=None, threads
                                   "rlimit": f.get("rlimit"), "success": f.get("success")})
     except Exception:
         pass
-    if vr.get("encountered-vir-error") or (res.tool_errors and not res.failures and not res.undecided):
+    if res.tool_errors and not res.failures and not res.undecided:
         res.status = "tool"
     elif res.failures:
         res.status = "fail"
     elif res.undecided:
         res.status = "undecided"
+    elif vr.get("encountered-vir-error"):
+        res.status = "tool"; res.tool_errors.append("verus front-end (VIR) error; see stderr.txt")
     elif not vr.get("success"):
         res.status = "tool"; res.tool_errors.append("verus reports failure without a classified error; see stderr.txt")
     elif res.verified == 0:
